@@ -34,7 +34,7 @@ TIERS = {
     "thorough": {"runs": 60000, "batch": 16, "timeout_s": 1800, "max_n": 40, "max_burn": 20, "shrink_budget": 160},
 }
 RULE = ("Configuration = sampler {mh, mhcustom with a deterministic contraction, _dummy1d} x nsamples 1-10 (quick) x "
-        "nburnout 0-6 x step size x dim 1-3 x f output {scalar, vector, tuple, constant} x parameters of f and of log p "
+        "nburnout 0-6 x step size x dim 1-3 x f output {scalar, vector, tuple, constant, its own argument, a view of it, a stored tensor} x backward-only sampler options x parameters of f and of log p "
         "{explicit tensors, held by one of 12 EditableModule / nn.Module kinds, f and log p on the same object or on two} "
         "x some tensors not requiring grad x an extra tensor entering neither function x usage {forward, backward, "
         "graph-recording backward + second backward, linearity triple}; one torch RNG seed per run. The history of "
@@ -72,7 +72,8 @@ def draw_scenario(cs, cfg):
     sc["step"] = [0.5, 1.0, 0.2, 1.7][cs.draw(4, "step")]
     sc["valseed"] = cs.draw(1000, "valseed")
     sc["rng"] = cs.draw(100000, "rngseed")
-    sc["fkind"] = ["scalar", "vector", "tuple", "const"][cs.weighted([4, 3, 3, 1], "fkind")]
+    sc["fkind"] = ["scalar", "vector", "tuple", "const", "identity", "view", "param"][
+        cs.weighted([4, 3, 3, 1, 1, 1, 1], "fkind")]
     # where the parameters live
     sc["fhold"] = ["object", "explicit"][cs.weighted([3, 2], "fhold")]
     sc["phold"] = ["object", "explicit", "same_object"][cs.weighted([2, 2, 2], "phold")]
@@ -87,6 +88,9 @@ def draw_scenario(cs, cfg):
     sc["zkind"] = ["tensor_grad", "tensor_nograd", "float"][cs.weighted([3, 1, 1], "zkind")]
     sc["usage"] = ["fwd", "bwd", "bwd2", "linearity"][cs.weighted([1, 4, 3, 1], "usage")]
     sc["lb"], sc["ub"] = [(-2.0, 2.0), (-1.0, 3.0), (float("-inf"), float("inf"))][cs.draw(3, "bounds")]
+    # options for the backward pass that differ from the forward ones: the backward pass integrates over the
+    # samples of the forward pass, so sampler options given for it must not change which samples are used
+    sc["bck"] = [None, "nsamples", "nburnout", "step_size"][cs.weighted([3, 1, 1, 1], "bck_options")]
     return sc
 
 
@@ -253,6 +257,12 @@ def call_mcquad(env, sc, fkind, ffcn=None):
         opts = dict(method="mhcustom", nsamples=sc["nsamples"], nburnout=sc["nburnout"], custom_step=env.step)
     else:
         opts = dict(method="_dummy1d", nsamples=sc["nsamples"], lb=sc["lb"], ub=sc["ub"])
+    if sc.get("bck") == "nsamples":
+        opts["bck_options"] = {"nsamples": sc["nsamples"] + 3}
+    elif sc.get("bck") == "nburnout":
+        opts["bck_options"] = {"nburnout": sc["nburnout"] + 2}
+    elif sc.get("bck") == "step_size":
+        opts["bck_options"] = {"step_size": 0.31}
     torch.manual_seed(sc["rng"])
     return mcquad(ffcn or env.ffcn, env.pfcn, env.x0, fparams=fargs(env, fkind), pparams=pargs(env), **opts)
 
@@ -365,6 +375,10 @@ def run(cs, cfg):
           (float((rf.detach() - ref.detach()).abs().max()) if rf.shape == ref.shape else float("nan")))
     if fk == "const" and not torch.allclose(rf.detach(), torch.full_like(rf, 1.75), rtol=1e-12, atol=1e-12):
         V("normalisation", "a constant integrand does not return the constant: %s" % rf.detach().tolist())
+    if fk == "param":
+        bnow = env.fWb()[1].detach()
+        if rf.shape != bnow.reshape(-1).shape or not torch.allclose(rf.detach(), bnow.reshape(-1), rtol=1e-12, atol=1e-12):
+            V("normalisation", "an integrand that returns a stored tensor does not give that tensor back")
     if fk == "tuple":
         if not (isinstance(res, (tuple, list)) and len(res) == 2 and res[0].shape == () and res[1].shape == (2,)):
             V("tuple_output", "tuple output does not keep its structure")
